@@ -8,5 +8,10 @@ pub fn validate(s: &str) -> Result<(), Error> {
         validate_id(s, b'$')?;
     }
 
+    // As for room IDs, the opaque part cannot be checked further, but it cannot contain NUL.
+    if s.as_bytes().contains(&b'\0') {
+        return Err(Error::InvalidCharacters);
+    }
+
     Ok(())
 }
